@@ -195,6 +195,25 @@ class Ctx:
         return p
 
     # ------------------------------------------------------------------
+    def ir_translate(self, name, tu, cxx=False, defines=(), inline=2000, extra_flags=()):
+        """front end B: clang -O1 -> LLVM IR -> tools/ll2c.py -> C for cbmc.  Returns the path of the
+        generated C (regenerated from /repo's working tree on every run)."""
+        d = self.wpath("ir")
+        os.makedirs(d, exist_ok=True)
+        ll = os.path.join(d, name + ".ll")
+        out = os.path.join(d, name + "_ll.c")
+        cc = ["clang++-14", "-std=c++17", "-fno-exceptions", "-fno-rtti", "-D_GLIBCXX_EXTERN_TEMPLATE=0"] if cxx else ["clang-14"]
+        cmd = cc + ["-O1", "-mllvm", "-inline-threshold=%d" % inline, "-fno-vectorize", "-fno-slp-vectorize", "-fno-unroll-loops",
+                    "-DVERIF_IR", "-w"] + BASE_DEFS + BASE_INC + list(defines) + list(extra_flags) + ["-S", "-emit-llvm", tu, "-o", ll]
+        rc, o, *_ = sh(cmd, timeout=600)
+        if rc != 0:
+            raise RuntimeError("clang failed for %s:\n%s" % (name, o[-3000:]))
+        rc, o, *_ = sh([sys.executable, os.path.join(VERIF, "tools", "ll2c.py"), ll, out], timeout=600)
+        if rc != 0:
+            raise RuntimeError("ll2c failed for %s:\n%s" % (name, o[-3000:]))
+        self.tv_programs += 1
+        return out
+
     def cbmc_cmd(self, q, extra=()):
         cmd = ["cbmc"] + q.sources + BASE_DEFS + BASE_INC + q.defines
         cmd += ["--function", q.entry, "--unwind", str(q.unwind)]
